@@ -43,6 +43,30 @@ func run(c *core.Ctx) {
 	for i, n := 0, c.N(60, 1200); i < n; i++ {
 		plans = append(plans, shimsim.GenPlan(c.Rng, pool, refusing, "lock-unlock-refused-by-agent"))
 	}
+	// raw requests relayed while the shim is locked (Forward is the one operation the lock does not stop): smartcard
+	// add / remove, extension - refused or answered by the locked agent, they change nothing the shim holds
+	op := func(k shimsim.OpKind, b uint64) *shimsim.Op { return &shimsim.Op{Kind: k, Blob: b} }
+	for i, n := 0, c.N(18, 240); i < n; i++ {
+		r := c.Rng
+		k := uint64(1 + r.Intn(len(pool.Keys)))
+		p := &shimsim.Plan{Class: "raw-request-while-locked", NoUp: i%2 == 1, Data: map[uint64][]byte{1: []byte("data-1")}}
+		t1, k1 := shimsim.GenKeyID(r)
+		t2, k2 := shimsim.GenKeyID(r)
+		hw := shimsim.CertSpec{ID: pool.ReserveID(), KeyID: k, Window: core.Pick(r, "current", "forever"), KidText: t1, KidKind: k1}
+		hw2 := shimsim.CertSpec{ID: pool.ReserveID(), KeyID: k, Window: "current", KidText: t2, KidKind: k2}
+		p.Certs = []shimsim.CertSpec{hw, hw2}
+		p.Initial = []uint64{k}
+		body := make([]byte, 12+r.Intn(20))
+		r.Read(body)
+		body[0] = []byte{21, 20, 26, 27, 21, 0x90}[i%6]
+		rep := []byte{core.Pick[byte](r, 5, 6, 28)}
+		fw := &shimsim.Op{Kind: shimsim.OpForward, RawID: 1, RawBody: body, RawRep: rep}
+		pw := []byte("pw")
+		p.Ops = []*shimsim.Op{op(shimsim.OpAddHard, hw.ID), op(shimsim.OpAddHard, hw2.ID), op(shimsim.OpList, 0),
+			{Kind: shimsim.OpLock, Pass: pw}, fw, op(shimsim.OpList, 0), {Kind: shimsim.OpUnlock, Pass: pw},
+			op(shimsim.OpList, 0), op(shimsim.OpSigners, 0), {Kind: shimsim.OpSign, Blob: hw.ID, DataID: 1}}
+		plans = append(plans, p)
+	}
 	for _, r := range shimsim.RunAll(pool, plans, 8) {
 		r.Emit(c)
 	}
